@@ -406,6 +406,36 @@ def c14_job(job) -> List[Dict[str, Any]]:
             sh = {k: r.sample(v, len(v)) for k, v in jb['j'].items()}
             R.add('deal.from_json', {'lists': [sh[k] for k in ('N', 'E', 'S', 'W')]},
                   lambda: {'out': project_hands(hands_parser(sh))})
+            # ... nor on the order of the members of the JSON object (a file
+            # re-saved with sorted keys, a database column)
+            ko = r.sample(['N', 'E', 'S', 'W'], 4)
+            reord = {k: list(jb['j'][k]) for k in ko}
+            R.add('deal.from_json', {'lists': lists, 'key_order': ''.join(ko)},
+                  lambda: {'out': project_hands(hands_parser(reord))})
+        # what a decoder returns is a deal like any other: it goes through every
+        # encoder again (decode -> encode chains)
+        if 'b' in box and r.random() < 0.5:
+            for nm, dec in (('tuple', lambda: Hands.convert_binary(box['b'])),
+                            ('np', lambda: Hands.convert_np_binary(hb.to_np_binary())),
+                            ('json', lambda: hands_parser(convert_deal(hb))),
+                            ('pbn', lambda: Hands.convert_pbn(hb.to_pbn()) if all(len(x) == 13 for x in dl) else None)):
+                try:
+                    h2 = dec()
+                except Exception:  # noqa
+                    h2 = None
+                if h2 is None:
+                    continue
+                R.add('deal.to_binary', {'deal': dl, 'kind': f'tuple-after-{nm}'},
+                      lambda: (lambda b: {'out': [list(map(int, b[p])) for p in Player], 'type_ok': True})(h2.to_binary()))
+                R.add('deal.to_json', {'deal': dl, 'after': nm},
+                      lambda: (lambda j: {'out': [list(j[k]) for k in ('N', 'E', 'S', 'W')]})(convert_deal(h2)))
+                R.add('deal.to_binary', {'deal': dl, 'kind': f'np:default-after-{nm}'},
+                      lambda: (lambda b: {'out': [[int(x) for x in b[p]] for p in Player],
+                                          'type_ok': True})(h2.to_np_binary()))
+                if all(len(x) == 13 for x in dl):
+                    f2 = r.randrange(4)
+                    R.add('deal.to_pbn', {'deal': dl, 'first': f2},
+                          lambda: {'out': h2.to_pbn(Player(f2 + 1))})
         # a hand attribute re-assigned on the object (a hand hidden / swapped),
         # then encoded: every encoder must show the new hands
         if r.random() < 0.3 and any(dl):
